@@ -224,6 +224,9 @@ func (b *Billet) Traverse(process func(pathToNode []byte, node Node, nodeBytes [
 }
 
 func (b *Billet) traverse(curr Node, path, from []byte, process func(pathToNode []byte, node Node, nodeBytes []byte) bool, ignoreStorageErr bool, backwards bool) (Node, error) {
+	if backwards {
+		return b.traverseBackwards(curr, path, from, len(from) != 0, process, ignoreStorageErr)
+	}
 	if _, ok := curr.(EmptyNode); ok {
 		// We're not interested in EmptyNodes, and they do not affect the
 		// traversal process, thus remain them untouched.
@@ -249,57 +252,11 @@ func (b *Billet) traverse(curr Node, path, from []byte, process func(pathToNode 
 	case *LeafNode:
 		return b.tryCollapseLeaf(n), nil
 	case *BranchNode:
-		if !backwards {
-			var startIndex byte
-			if len(from) != 0 {
-				startIndex, from = splitPath(from)
-			} else {
-				// Process the last child before the rest of the children to match lexicographic keys comparison order,
-				// since the last child doesn't add suffix to the key.
-				r, err := b.traverse(n.Children[lastChild], path, from, process, ignoreStorageErr, backwards)
-				if err != nil {
-					if !errors.Is(err, errStop) {
-						return nil, err
-					}
-					n.Children[lastChild] = r
-					return b.tryCollapseBranch(n), err
-				}
-				n.Children[lastChild] = r
-			}
-			for i := startIndex; i < lastChild; i++ {
-				if i != startIndex {
-					from = []byte{}
-				}
-				r, err := b.traverse(n.Children[i], append(path, i), from, process, ignoreStorageErr, backwards)
-				if err != nil {
-					if !errors.Is(err, errStop) {
-						return nil, err
-					}
-					n.Children[i] = r
-					return b.tryCollapseBranch(n), err
-				}
-				n.Children[i] = r
-			}
+		var startIndex byte
+		if len(from) != 0 {
+			startIndex, from = splitPath(from)
 		} else {
-			var startIndex byte = lastChild - 1
-			if len(from) != 0 {
-				startIndex, from = splitPath(from)
-			}
-			for i := int(startIndex); i >= 0; i-- {
-				if byte(i) != startIndex {
-					from = []byte{}
-				}
-				r, err := b.traverse(n.Children[i], append(path, byte(i)), from, process, ignoreStorageErr, backwards)
-				if err != nil {
-					if !errors.Is(err, errStop) {
-						return nil, err
-					}
-					n.Children[i] = r
-					return b.tryCollapseBranch(n), err
-				}
-				n.Children[i] = r
-			}
-			// Process the last child after the rest of the children to match lexicographic keys comparison order,
+			// Process the last child before the rest of the children to match lexicographic keys comparison order,
 			// since the last child doesn't add suffix to the key.
 			r, err := b.traverse(n.Children[lastChild], path, from, process, ignoreStorageErr, backwards)
 			if err != nil {
@@ -311,7 +268,20 @@ func (b *Billet) traverse(curr Node, path, from []byte, process func(pathToNode 
 			}
 			n.Children[lastChild] = r
 		}
-
+		for i := startIndex; i < lastChild; i++ {
+			if i != startIndex {
+				from = []byte{}
+			}
+			r, err := b.traverse(n.Children[i], append(path, i), from, process, ignoreStorageErr, backwards)
+			if err != nil {
+				if !errors.Is(err, errStop) {
+					return nil, err
+				}
+				n.Children[i] = r
+				return b.tryCollapseBranch(n), err
+			}
+			n.Children[i] = r
+		}
 		return b.tryCollapseBranch(n), nil
 	case *ExtensionNode:
 		if len(from) != 0 && bytes.HasPrefix(from, n.key) {
@@ -322,6 +292,104 @@ func (b *Billet) traverse(curr Node, path, from []byte, process func(pathToNode 
 			return b.tryCollapseExtension(n), nil
 		}
 		r, err := b.traverse(n.next, append(path, n.key...), from, process, ignoreStorageErr, backwards)
+		if err != nil && !errors.Is(err, errStop) {
+			return nil, err
+		}
+		n.next = r
+		return b.tryCollapseExtension(n), err
+	default:
+		return nil, ErrNotFound
+	}
+}
+
+// traverseBackwards is the descending order counterpart of traverse. If bounded
+// is set, only the nodes which path relative to curr is not greater than from
+// are visited (an empty from then allows nothing but the value stored at curr's
+// own path); otherwise the whole subtree of curr is visited.
+func (b *Billet) traverseBackwards(curr Node, path, from []byte, bounded bool, process func(pathToNode []byte, node Node, nodeBytes []byte) bool, ignoreStorageErr bool) (Node, error) {
+	if _, ok := curr.(EmptyNode); ok {
+		return curr, nil
+	}
+	if hn, ok := curr.(*HashNode); ok {
+		r, err := b.GetFromStore(hn.Hash())
+		if err != nil {
+			if ignoreStorageErr && errors.Is(err, storage.ErrKeyNotFound) {
+				return hn, nil
+			}
+			return nil, err
+		}
+		return b.traverseBackwards(r, path, from, bounded, process, ignoreStorageErr)
+	}
+	if _, isLeaf := curr.(*LeafNode); isLeaf || !bounded {
+		// Leaf has no path of its own, hence it's never greater than the bound.
+		bytes := bytes.Clone(curr.Bytes())
+		if process(fromNibbles(path), curr, bytes) {
+			return curr, errStop
+		}
+	}
+	switch n := curr.(type) {
+	case *LeafNode:
+		return b.tryCollapseLeaf(n), nil
+	case *BranchNode:
+		var (
+			startIndex   = int(lastChild) - 1
+			startBounded bool
+		)
+		if bounded {
+			if len(from) == 0 {
+				// Every ordinary child is greater than the bound.
+				startIndex = -1
+			} else {
+				var i byte
+				i, from = splitPath(from)
+				startIndex, startBounded = int(i), true
+			}
+		}
+		for i := startIndex; i >= 0; i-- {
+			var (
+				childFrom    []byte
+				childBounded = startBounded && i == startIndex
+			)
+			if childBounded {
+				childFrom = from
+			}
+			r, err := b.traverseBackwards(n.Children[i], append(path, byte(i)), childFrom, childBounded, process, ignoreStorageErr)
+			if err != nil {
+				if !errors.Is(err, errStop) {
+					return nil, err
+				}
+				n.Children[i] = r
+				return b.tryCollapseBranch(n), err
+			}
+			n.Children[i] = r
+		}
+		// Process the last child after the rest of the children to match lexicographic keys comparison order,
+		// since the last child doesn't add suffix to the key (and thus is never greater than the bound).
+		r, err := b.traverseBackwards(n.Children[lastChild], path, nil, false, process, ignoreStorageErr)
+		if err != nil {
+			if !errors.Is(err, errStop) {
+				return nil, err
+			}
+			n.Children[lastChild] = r
+			return b.tryCollapseBranch(n), err
+		}
+		n.Children[lastChild] = r
+		return b.tryCollapseBranch(n), nil
+	case *ExtensionNode:
+		if bounded {
+			switch {
+			case bytes.HasPrefix(from, n.key):
+				// Still bounded, probably by the node located exactly at the end of the key.
+				from = from[len(n.key):]
+			case bytes.Compare(n.key, from) < 0:
+				// The whole subtree is less than the bound.
+				from, bounded = nil, false
+			default:
+				// The whole subtree is greater than the bound.
+				return b.tryCollapseExtension(n), nil
+			}
+		}
+		r, err := b.traverseBackwards(n.next, append(path, n.key...), from, bounded, process, ignoreStorageErr)
 		if err != nil && !errors.Is(err, errStop) {
 			return nil, err
 		}
